@@ -42,4 +42,14 @@ def SortedNames (l : List Name) : Prop := l.Pairwise (fun a b => nameLt a b = tr
 
 instance (l : List Name) : Decidable (SortedNames l) := by unfold SortedNames; infer_instance
 
+mutual
+/-- every directory at or below the node keeps its children strictly sorted by `strcmp` (hence with pairwise
+different names): the form in which `fstree.c` hands the tree to the serialiser -/
+def TNode.AllSorted : TNode → Prop
+  | .mk _ _ cs => SortedNames (cs.map TNode.name) ∧ AllSortedList cs
+def AllSortedList : List TNode → Prop
+  | [] => True
+  | c :: cs => c.AllSorted ∧ AllSortedList cs
+end
+
 end Sqfs.FsTree
